@@ -4,19 +4,18 @@ import (
 	"fmt"
 	"os"
 
+	"kvqlverif/checks"
 	"kvqlverif/drive"
 	"kvqlverif/refstore"
 )
 
 func main() {
-	ps := []refstore.Pair{{K: "00", V: "a"}, {K: "01", V: "c"}, {K: "a00", V: "b"}, {K: "a01", V: "B"}, {K: "a02", V: "b"}}
 	for _, q := range os.Args[1:] {
-		for _, b := range []bool{false, true} {
-			for _, cache := range []bool{false, true} {
-				st := refstore.New(ps)
-				o := drive.Run(q, st, drive.Mode{Batch: b, Size: 1, Cache: cache})
-				fmt.Printf("batch=%v cache=%v status=%s rows=%v err=%v\n", b, cache, o.Status(), o.Rows, o.Err())
-			}
+		st := refstore.New(checks.C18StoreForDebug())
+		o := drive.Run(q, st, drive.Mode{Size: 32, Cache: true})
+		fmt.Printf("%q status=%s rows=%d\n", q, o.Status(), len(o.Rows))
+		for _, l := range refstore.FormatLog(st.Log()) {
+			fmt.Println("  ", l)
 		}
 	}
 }
